@@ -35,6 +35,10 @@ TraceReset == /\ Consume("Reset")
 TraceRecord == Consume("Record") /\ Record(E.d) /\ Observed
 TraceRefreshReset == /\ Consume("RefreshReset") /\ RefreshReset(E.r) /\ Observed
                      /\ (Has("taken") => inflight'[E.r].m = E.taken)
+\* A refresh that returned an error without having handed anything to the uploader
+\* (RefreshReset and UploadFail in one step): whatever it took is back.
+TraceRefreshAborted == /\ Consume("RefreshAborted") /\ ~inflight[E.r].busy
+                       /\ UNCHANGED vars /\ Observed
 TraceUploadOK == Consume("UploadOK") /\ UploadOK(E.r) /\ Observed /\ (Has("mutated") => ~E.mutated)
 TraceUploadFail == Consume("UploadFail") /\ UploadFail(E.r) /\ Observed /\ (Has("mutated") => ~E.mutated)
 \* Free-running stress: only the quiescent totals are observable.
@@ -42,7 +46,7 @@ TraceSummary == /\ Consume("Summary")
                 /\ \A d \in Dev : E.delivered[d] + E.pending[d] = E.recorded[d]
                 /\ UNCHANGED vars
 
-TraceNext == TraceReset \/ TraceRecord \/ TraceRefreshReset \/ TraceUploadOK \/ TraceUploadFail \/ TraceSummary
+TraceNext == TraceReset \/ TraceRecord \/ TraceRefreshReset \/ TraceRefreshAborted \/ TraceUploadOK \/ TraceUploadFail \/ TraceSummary
 TraceSpec == TraceInit /\ [][TraceNext]_tvars
 
 TraceAccepted ==
